@@ -217,7 +217,7 @@ def handAnywhere : StateFn :=
   { pre := [],
     arms := [
       { guards := [.isEof], acts := [.runExitIfSet], next := .stop },
-      { guards := [.eq 0x18, .eq 0x1A], acts := [.runExitIfSet, .execute], next := .st .ground },
+      { guards := [.eq 0x18, .eq 0x1A], acts := [.runExitIfSet, .clearIgnoreST, .execute], next := .st .ground },
       { guards := [.eq 0x1B], acts := [.runExitIfSet, .clear, .startTimer], next := .st .escape }],
     dflt := { guards := [], acts := [], next := .dispatch } }
 
@@ -295,7 +295,7 @@ def handFn : StateId → StateFn
         { guards := [.range 0x30 0x39, .eq 0x3B], acts := [.param], next := .st .dcsParam },
         { guards := [.range 0x3C 0x3F], acts := [.collect], next := .st .dcsParam },
         { guards := [.range 0x40 0x7E], acts := [.hook], next := .st .dcsPassthrough }],
-      dflt := { guards := [], acts := [.hook], next := .st .dcsPassthrough } }
+      dflt := errGround }
   | .dcsIntermediate =>
     { pre := [],
       arms := [
@@ -331,7 +331,7 @@ def handFn : StateId → StateFn
   | .oscString =>
     { pre := [.setIgnoreST],
       arms := [
-        { guards := [.eq 0x07], acts := [.runExit, .clearExit], next := .st .ground },
+        { guards := [.eq 0x07], acts := [.runExit, .clearExit, .clearIgnoreST], next := .st .ground },
         { guards := c0, acts := [], next := .st .oscString },
         { guards := [.range 0x20 0x7F], acts := [.oscPut], next := .st .oscString }],
       dflt := { guards := [], acts := [.oscPut], next := .st .oscString } }
